@@ -88,8 +88,16 @@ class SimParallel(object):
             results, order_done = _run_threads(tasks, dispatch, plan,
                                                crash_after, fno)
         else:
+            workers = None
+            if mode == 'process' and plan.get('reuse_workers', True):
+                # which (persistent) worker process serves which task: a
+                # seeded injection of tasks into the pool 0..n-1
+                wr = random.Random((plan.get('order_seed') or 0) * 31 + fno
+                                   + 17)
+                workers = list(range(n))
+                wr.shuffle(workers)
             results, order_done = _run_seq(tasks, dispatch, mode,
-                                           crash_after, fno)
+                                           crash_after, fno, workers)
         if self.return_as == 'generator_unordered':
             # completion order: for sequential modes use the planned completion
             # permutation (a real pool completes in any order)
@@ -156,12 +164,36 @@ class ModuleState(object):
         for f, dv in d:
             f.__defaults__ = copy.deepcopy(dv)
 
-    def enter_worker(self):
+    def reset_workers(self):
+        self.workers = {}
+
+    def enter_worker(self, wid=None):
+        """Swap in the module state of simulated worker process `wid`
+        (persisting across the tasks and calls of a run: loky re-uses its
+        workers), or a pristine state for wid None (a freshly started
+        worker)."""
         if self.pristine is None:
             return None
         cur = self._snapshot_refs()
-        self._install(self.pristine)
+        st = getattr(self, 'workers', {}).get(wid) if wid is not None else None
+        if st is None:
+            self._install(self.pristine)
+        else:
+            self._install_refs(st)
         return cur
+
+    def _install_refs(self, snap):
+        g, d = snap
+        for m, k, v in g:
+            setattr(m, k, v)
+        for f, dv in d:
+            f.__defaults__ = dv
+
+    def save_worker(self, wid):
+        if wid is not None and self.pristine is not None:
+            if not hasattr(self, 'workers'):
+                self.workers = {}
+            self.workers[wid] = self._snapshot_refs()
 
     def _snapshot_refs(self):
         import types
@@ -203,21 +235,22 @@ class ModuleState(object):
 MODSTATE = ModuleState()
 
 
-def _call(task, mode):
+def _call(task, mode, wid=None):
     f, args, kwargs = task
     if mode == 'process':
         f, args, kwargs = pickle.loads(pickle.dumps((f, args, kwargs),
                                                     pickle.HIGHEST_PROTOCOL))
-        cur = MODSTATE.enter_worker()
+        cur = MODSTATE.enter_worker(wid)
         try:
             r = f(*args, **kwargs)
         finally:
+            MODSTATE.save_worker(wid)
             MODSTATE.leave_worker(cur)
         return pickle.loads(pickle.dumps(r, pickle.HIGHEST_PROTOCOL))
     return f(*args, **kwargs)
 
 
-def _run_seq(tasks, dispatch, mode, crash_after, fno):
+def _run_seq(tasks, dispatch, mode, crash_after, fno, workers=None):
     n = len(tasks)
     results = [None] * n
     done = []
@@ -233,7 +266,8 @@ def _run_seq(tasks, dispatch, mode, crash_after, fno):
                                      % (len(done), n))
             ENV.actor = 'task:%d' % i
             ENV.log('task_begin', i)
-            results[i] = _call(tasks[i], mode)
+            results[i] = _call(tasks[i], mode,
+                               workers[i] if workers else None)
             ENV.log('task_end', i)
             done.append(i)
     finally:
